@@ -245,9 +245,40 @@ def canon(el, pool, hist):
         for item in arr:
             e = item[-1] if isinstance(item, tuple) else item
             out.append(_idx(pool, e))
+        # anything else the list object remembers (a cached head, a memo of
+        # the latest entry, an index) is part of the state: two histories
+        # are merged only if the whole object looks the same
+        extra = tuple(sorted(
+            (k, _norm(v, pool)) for k, v in vars(el).items()
+            if k not in ("_event_list", "_verif_other")))
+        if extra:
+            return ("layout", tuple(out), extra)
         return ("layout", tuple(out))
     except Exception:
         return ("hist", tuple(hist))
+
+
+def _norm(v, pool, depth=0):
+    for i, x in enumerate(pool):
+        if x is v:
+            return ("ev", i)
+    if v is None or isinstance(v, (bool, int, float, str)):
+        return repr(v)
+    if depth > 4:
+        return type(v).__name__
+    if isinstance(v, (tuple, list, collections.deque)):
+        return (type(v).__name__,) + tuple(_norm(x, pool, depth + 1)
+                                           for x in v)
+    if isinstance(v, (set, frozenset)):
+        return (type(v).__name__,) + tuple(sorted(
+            repr(_norm(x, pool, depth + 1)) for x in v))
+    if isinstance(v, dict):
+        return ("dict",) + tuple(sorted(
+            repr((_norm(k, pool, depth + 1), _norm(x, pool, depth + 1)))
+            for k, x in v.items()))
+    if hasattr(v, "si") and hasattr(v, "unit"):
+        return repr(v)
+    return type(v).__name__
 
 
 def observe_all(el, ref, pool, K):
@@ -426,6 +457,153 @@ def raw_sequences(task):
                 canon_classes=len(by_canon))
 
 
+# ---------------------------------------------------------------- large lists
+# Heaps of 4..6 levels: thresholds (a fast path that switches on beyond n
+# entries, a scan limit) and sift paths longer than the K<=9 pools reach.
+LARGE_PRIO = (5, 1, 5, 10, 5, 7)
+
+
+def make_large_pool(kind, N):
+    """N events with many ties on time and on (time, priority), created in
+    index order, plus three extra events X0 (before all), X1 (ties with the
+    middle class, created last) and X2 (after all)"""
+    from pydsol.core.simevent import SimEvent
+    tgt = _T()
+    spec = [((i * 5) % 7, LARGE_PRIO[i % 6]) for i in range(N)]
+    spec += [(-1, 5), (3, 5), (8, 5)]
+    pool = []
+    for rank, (t, pr) in enumerate(spec):
+        e = SimEvent(_mk_time(kind, t), tgt, "h", pr)
+        e._verif_prio = pr
+        e._verif_rank = rank
+        pool.append(e)
+    return pool
+
+
+def large_fills(N):
+    out = {"index": list(range(N))}
+    # sorted orders are filled in by the caller (need the pool)
+    for s in (3, 7, 11):
+        import math
+        if N > s and math.gcd(s, N) == 1:
+            out["stride%d" % s] = [(i * s) % N for i in range(N)]
+    oi = []
+    lo, hi = 0, N - 1
+    while lo <= hi:
+        oi.append(lo)
+        if hi != lo:
+            oi.append(hi)
+        lo += 1
+        hi -= 1
+    out["outside-in"] = oi
+    return out
+
+
+def large_script(pool, N, fill, script, probes=()):
+    """fresh list, add the events of `fill` in that order, apply `script`
+    (ops on pool indices; N, N+1, N+2 are the extra events), compare return
+    values, the probes (contains) and the whole drain order"""
+    from pydsol.core.eventlist import EventListHeap
+    el = EventListHeap()
+    ref = []
+    bad = []
+    for i in fill:
+        el.add(pool[i])
+        ref.append(i)
+    ref.sort(key=lambda i: ref_key(pool[i]))
+    for op in script:
+        try:
+            got = apply_real(el, pool, op)
+        except Exception as ex:  # noqa
+            got = ("raised", type(ex).__name__, str(ex)[:60])
+        exp = apply_ref(ref, pool, op)
+        if op[0] != "add" and got != exp:
+            bad.append(("return", op, got, exp))
+    for op in [("size",), ("peek",)] + [("contains", i) for i in probes]:
+        try:
+            got = apply_real(el, pool, op)
+        except Exception as ex:  # noqa
+            got = ("raised", type(ex).__name__, str(ex)[:60])
+        exp = apply_ref(ref, pool, op)
+        if got != exp:
+            bad.append(("query", op, got, exp))
+    try:
+        d = drain(el, pool)
+    except Exception as ex:  # noqa
+        d = ("raised", type(ex).__name__, str(ex)[:60])
+    if d != ref:
+        bad.append(("drain", d if not isinstance(d, list) else d[:N + 3],
+                    list(ref)))
+    return bad
+
+
+def large_worker(task):
+    kind, N, pairs = task
+    pool = make_large_pool(kind, N)
+    fills = large_fills(N)
+    asc = sorted(range(N), key=lambda i: ref_key(pool[i]))
+    fills["ascending"] = asc
+    fills["descending"] = asc[::-1]
+    n = 0
+    viols = []
+    outcomes = set()
+
+    def go(fname, fill, script, probes):
+        nonlocal n
+        n += 1
+        bad = large_script(pool, N, fill, script, probes)
+        if bad and len(viols) < 30:
+            viols.append((fname, list(fill), [list(o) for o in script],
+                          list(probes), bad[0]))
+        return bad
+
+    X = (N, N + 1, N + 2)
+    for fname, fill in sorted(fills.items()):
+        # every prefix of the fill (the list while it grows)
+        for k in range(1, N + 1):
+            pre = fill[:k]
+            probes = (pre[-1], pre[0], fill[k % N] if k < N else N)
+            if k == N:
+                probes = tuple(range(N + 3))
+            go(fname, pre, (), probes)
+        # one event cancelled at every position, then one more event
+        for i in range(N):
+            near = (i, fill[-1], fill[0], (i + 1) % N)
+            go(fname, fill, (("remove", i),), near)
+            go(fname, fill, (("remove", i), ("remove", i)), near)
+            for x in X:
+                go(fname, fill, (("remove", i), ("add", x)), near + (x,))
+                go(fname, fill, (("add", x), ("remove", i)), near + (x,))
+        # growth beyond N, pops in between
+        go(fname, fill, tuple(("add", x) for x in X), X)
+        go(fname, fill, (("pop",), ("add", X[1]), ("pop",), ("add", X[0]),
+                         ("add", X[2])), X)
+        if pairs:
+            for i in range(N):
+                for j in range(i + 1, N):
+                    go(fname, fill, (("remove", i), ("remove", j),
+                                     ("add", X[1])), (i, j, X[1]))
+        outcomes.add(fname)
+    return dict(kind=kind, N=N, n=n, viols=viols, fills=len(fills))
+
+
+def all_orders_worker(task):
+    """every insertion order of N tied events (N! fills), whole drain"""
+    kind, N, first = task
+    pool = make_large_pool(kind, N)
+    rest = [i for i in range(N) if i != first]
+    n = 0
+    viols = []
+    for perm in itertools.permutations(rest):
+        fill = (first,) + perm
+        n += 1
+        bad = large_script(pool, N, fill, (("add", N + 1),), (N + 1, fill[-1]))
+        if bad and len(viols) < 10:
+            viols.append(("all-orders", list(fill), [["add", N + 1]],
+                          [N + 1, fill[-1]], bad[0]))
+    return dict(kind=kind, N=N, n=n, viols=viols)
+
+
 def sig_of(kind, bad):
     return "C01:%s:%s" % (kind, bad[0])
 
@@ -485,8 +663,50 @@ def run(ctx):
                           {"mode": "history", "kind": r["kind"], "K": 4,
                            "order": "index", "rot": 0,
                            "hist": list(hist), "op": op})
+    # large lists
+    lkinds = ["int", "float", "duration"]
+    if quick:
+        sizes = [8, 9, 10, 12, 15, 16, 17, 18, 23, 24, 25, 26, 31, 32, 33,
+                 34, 40]
+        pair_sizes = {9, 17, 18, 25, 26, 33, 34}
+    else:
+        sizes = list(range(8, 49)) + [63, 64, 65, 66]
+        pair_sizes = set(sizes)
+    ltasks = [(k, N, N in pair_sizes) for N in sizes for k in lkinds]
+    ln = 0
+    for r in common.pimap(large_worker, ltasks):
+        ln += r["n"]
+        for (fname, fill, script, probes, bad) in r["viols"]:
+            ctx.violation("C01:large:%s:%s" % (r["kind"], bad[0]),
+                          "eventlist with %d %s-time events added in order "
+                          "'%s', then %s: %s" % (r["N"], r["kind"], fname,
+                                                 script, bad),
+                          {"mode": "large", "kind": r["kind"], "N": r["N"],
+                           "fill": fill, "script": script, "probes": probes})
+    ctx.part("large lists: %d sizes %d..%d x %s; every prefix of 5-8 "
+             "insertion orders, every single cancellation position (+ one "
+             "add before/after), every pair of positions for sizes %s" % (
+                 len(sizes), sizes[0], sizes[-1], lkinds,
+                 sorted(pair_sizes) if quick else "all"), executions=ln)
+    NP = 8 if quick else 9
+    pn = 0
+    for r in common.pimap(all_orders_worker,
+                          [(k, n_, f) for k in lkinds
+                           for n_ in range(2, NP + 1) for f in range(n_)]):
+        pn += r["n"]
+        for (fname, fill, script, probes, bad) in r["viols"]:
+            ctx.violation("C01:large:%s:%s:all-orders" % (r["kind"], bad[0]),
+                          "eventlist: %d %s-time events added in order %s, "
+                          "then %s: %s" % (r["N"], r["kind"], fill, script,
+                                           bad),
+                          {"mode": "large", "kind": r["kind"], "N": r["N"],
+                           "fill": fill, "script": script, "probes": probes})
+    ctx.part("all insertion orders of n tied events, n=2..%d" % NP,
+             executions=pn)
     ctx.coverage.update(states=states, transitions=trans + raw_n,
-                        traces_validated_against_impl=trans + raw_n,
+                        traces_validated_against_impl=trans + raw_n + ln + pn,
+                        large_list_executions=ln,
+                        insertion_order_executions=pn,
                         comparison_evaluations=ncmp,
                         explanation="every transition is an execution of the "
                         "real EventListHeap replayed from an empty list and "
@@ -494,11 +714,19 @@ def run(ctx):
                         "all queries, full drain order)")
     ctx.assumptions += [
         "adding the same event object twice is unspecified and not explored",
+        "lists of more than 9 events: fixed tie-rich event sets and 5-8 "
+        "insertion orders per size (all orders only up to 8/9 events); within "
+        "those every cancellation position / pair is enumerated",
         "canonical state = layout of the internal array (over-fine on purpose);"
         " validated by raw enumeration without dedup to depth %d" % depth]
 
 
 def replay(data):
+    if data["mode"] == "large":
+        pool = make_large_pool(data["kind"], data["N"])
+        return large_script(pool, data["N"], data["fill"],
+                            [tuple(o) for o in data["script"]],
+                            tuple(data["probes"])) or None
     if data["mode"] == "order":
         r = check_order((data["kind"], data["K"], data["order"], data["rot"]))
         return r["bad"][:3] or None
